@@ -281,7 +281,7 @@ func checkSelection(st *selStats, strategy string, c selCase, rank [3]int, cs *b
 }
 
 func selectorLevel(r *ev.Run, v *vault) map[string]any {
-	maxN := r.QT(5, 7)
+	maxN := r.QT(5, 6)
 	targets := []uint64{15000, 100000} // small: one P2SH input at fee rate 50 costs more than the payment; mid
 	feeRates := []uint64{1, 50}
 	type job struct {
@@ -454,6 +454,21 @@ func selectorLevel(r *ev.Run, v *vault) map[string]any {
 	sort.Strings(keys)
 	for _, k := range keys {
 		r.Violation(k, tot.viols[k])
+	}
+	// directed: the repro recorded in DESIGN section 6 (F2), through Select as chooseUtxos configures it
+	{
+		coins := []coin{{140000, "P2SH"}, {140000, "P2SH"}, {140000, "P2SH"}, {130000, "P2SH"}}
+		given := mkUtxos(v, coins)
+		cs := btc.VerifC26Selector(&btc.Utxos{Utxos: given}, 100000, 250000, 1, v.outs(100000), 2, 3)
+		res, sum, fee := cs.Select()
+		var real uint64
+		var vals []uint64
+		for _, u := range res {
+			real += u.Value
+			vals = append(vals, u.Value)
+		}
+		r.Note("directed_F2_repro", map[string]any{"utxos": coins, "target": 100000, "min_change": 250000, "fee_rate": 1,
+			"selected_values": vals, "reported_total": sum, "sum_of_selected_values": real, "fee": fee})
 	}
 	seqs := 0
 	for n := 1; n <= maxN; n++ {
